@@ -64,6 +64,8 @@ class Scen:
                 ev.append("L%d:%d@%d" % (e["k"], e["dur"], e["t"]))
         if self.watchdog:
             ev.append("W0:%d@0" % self.watchdog)
+        if not self.herd and not self.forced_labels:
+            ev.append("Q0:1@0")   # sequenced mode: well-separated events cannot be reordered by a loaded machine
         br = ",".join("%s=%s" % b for b in self.bridges) if self.bridges is not None else "-"
         return "broker scen %s %s" % (br, ",".join(ev))
 
